@@ -922,6 +922,11 @@ def stage_system(rep, rng, cs):
             cases.append(('define-override', a, b))
     for a in placements:
         cases.append(('optimize-size+pic+pthread', a, a))
+    # a SYSTEM include directory (not one of the compiler's defaults) together with warnings-as-errors, placed globally
+    # and on the target: diagnostics inside its headers must stay suppressed (-isystem), wherever the option is given
+    for a in ('global', 'target'):
+        for b in ('global', 'target'):
+            cases.append(('system-include-dir', a, b))
     env0 = common.impl_env()
     n_ok = 0
     for kind, a, b in cases:
@@ -930,6 +935,7 @@ def stage_system(rep, rng, cs):
         os.makedirs(src)
         env = dict(env0)
         glob, copts, cflags = [], [], []
+        pre = ''
         if kind == 'define-override':
             vals = {a: 1, b: 2}
             for pl, v in vals.items():
@@ -941,6 +947,14 @@ def stage_system(rep, rng, cs):
                     cflags.append('-DPLACED=%d' % v)
             winner = vals[max(vals, key=lambda p: rank[p])]
             checks = '#if PLACED != %d\n#error wrong definition wins\n#endif\n' % winner
+        elif kind == 'system-include-dir':
+            os.makedirs(os.path.join(src, 'vendor'))
+            with open(os.path.join(src, 'vendor', 'vend.h'), 'w') as f:
+                f.write('static inline int vend(void) { int scratch; return 42; }\n')      # -Wunused-variable under -Wall
+            pre = 'vendor = header_directory("vendor", system=True)\n'
+            for pl, o in ((a, 'opts.include_dir(vendor)'), (b, 'opts.warning("all", "error")')):
+                (glob if pl == 'global' else copts).append(o)
+            checks = '  if (vend() != 42) return 1;\n'
         else:
             for o in ('opts.optimize("size")', 'opts.pic()', 'opts.pthread()'):
                 if a == 'global':
@@ -954,10 +968,10 @@ def stage_system(rep, rng, cs):
         if cflags:
             env['CFLAGS'] = ' '.join(cflags)
         with open(os.path.join(src, 'build.bfg'), 'w') as f:
-            f.write(BUILD_BFG.format(globals=('global_options([%s], lang="c")' % ', '.join(glob)) if glob else '',
+            f.write(BUILD_BFG.format(globals=pre + (('global_options([%s], lang="c")' % ', '.join(glob)) if glob else ''),
                                      copts=', '.join(copts), lopts=''))
         with open(os.path.join(src, 'main.c'), 'w') as f:
-            f.write(MAIN_C.format(checks=checks))
+            f.write(('#include <vend.h>\n' if kind == 'system-include-dir' else '') + MAIN_C.format(checks=checks))
         rep.case('s:%s:%s:%s' % (kind, a, b), True)
         rep.count('system:' + kind)
         p = subprocess.run(['bfg9000', 'configure-into', src, bld, '--backend=make', '--no-resolve-packages'],
@@ -1003,8 +1017,7 @@ def run(rep):
         found = (found or 0) + stage_oracle_default_dirs(rep, cs)
         found += stage_oracle_pch(rep, rng)
         rep.stage('compilers', invocations=cs.n)
-        if thorough:
-            stage_system(rep, rng, cs)
+        stage_system(rep, rng, cs)
     finally:
         shutil.rmtree(root, ignore_errors=True)
     if dis and not rep.n_with_input:
